@@ -184,12 +184,12 @@ def run(ctx):
         facts = ctx.facts(cfg)
         reemit.dispatch_rule(ctx, facts, cfg, 'C05.a', UR, 'decompression')
         reemit.accounting_rule(ctx, facts, cfg, 'C05.b', UR, havoc=8)
-        reemit.rewrite_on_every_path_rule(ctx, facts, cfg, 'C05.b', UR, ('Compress::copy_uncompressed_name',), floor=3)
+        reemit.rewrite_on_every_path_rule(ctx, facts, cfg, 'C05.b', UR, ('Compress::copy_uncompressed_name',), floor=2)
         reemit.names_on_every_path_rule(ctx, facts, cfg, 'C05.h', UR, ('Compress::copy_uncompressed_name',), 'expanding it')
         reemit.fixed_parts_rule(ctx, facts, cfg, 'C05.b', UR)
         reemit.cursor_rule(ctx, facts, cfg, 'C05.c', [UW, 'compress::Compress::compress', 'renamer::Renamer::rename_with_raw_names'])
         translation_rule(ctx, facts, cfg)
         names_rule(ctx, facts, cfg)
-        reemit.open_ended_rule(ctx, facts, cfg, 'C05.f', UW, ('compress::',), 6, 'the decompressor')
+        reemit.open_ended_rule(ctx, facts, cfg, 'C05.f', UW, ('compress::',), 3, 'the decompressor')   # 7 sites on the pinned tree; merged arms need fewer, a rule that lost sight of the code finds none
         reemit.walker_siblings_rule(ctx, facts, cfg, 'C05.e')
     ctx.trust('analysis/interp.py contracts (Vec growth, byteorder writes), tables/policy.json')
